@@ -114,12 +114,13 @@ def getISOTXSLibrariesToMerge(xsLibrarySuffix, xsLibFileNames):
     xsLibrarySuffix: 'n2'
     Results: ISOAA-n2, ISOAB-n2
     """
+    # (look at the file names only: the directories leading to them may be called anything)
     isosToMerge = [
         iso
         for iso in xsLibFileNames
-        if "ISOTXS" not in iso  # Skip merged ISOTXS file
-        and ".ascii" not in iso  # Skip BCD/ascii files
-        and "BCD" not in iso
+        if "ISOTXS" not in os.path.basename(iso)  # Skip merged ISOTXS file
+        and ".ascii" not in os.path.basename(iso)  # Skip BCD/ascii files
+        and "BCD" not in os.path.basename(iso)
     ]  # Skip BCD/ascii files
     if xsLibrarySuffix != "":
         isosWithSuffix = [
